@@ -578,3 +578,13 @@ def _flag_disjunction(t):
                 continue
         return None
     return names
+
+
+def handler_roles_quiet(prog):
+    """roles of the handler's parameters without recording obligations (used by other properties)"""
+    from ..report import Checker
+    tmp = Checker("tmp", "quick", prog)
+    h, roles = handler_roles(tmp, "tmp")
+    if not all(k in roles for k in ("val", "min", "max")):
+        raise AnalysisError("overflow handler parameter roles cannot be determined (its range tests are not in the expected form)")
+    return roles
